@@ -95,25 +95,29 @@ func main() {
 		var passed, rejected, hits, fixed, retries, queued atomic.Int64
 		var stop atomic.Bool
 		var bg sync.WaitGroup
-		applied := 0
-		bg.Add(1)
-		go func() {
-			defer bg.Done()
-			for i := 0; !stop.Load(); i++ {
-				switch i % 4 {
-				case 0:
-					eng.Admin("POST", "/apply_policies", []byte(policies(1+i%2)))
-				case 1:
-					eng.Admin("POST", "/revert_to_diagnosis_free", nil)
-				case 2:
-					eng.Admin("POST", "/revert_to_last_loaded", nil)
-				case 3:
-					eng.Admin("POST", "/apply_policies", nil)
+		var applied atomic.Int64
+		// two administrators at once: each admin HTTP request runs on its own goroutine in the engine, so swaps may
+		// overlap each other as well as the traffic
+		for adm := 0; adm < 2; adm++ {
+			bg.Add(1)
+			go func(adm int) {
+				defer bg.Done()
+				for i := adm * 2; !stop.Load(); i++ {
+					switch i % 4 {
+					case 0:
+						eng.Admin("POST", "/apply_policies", []byte(policies(1+i%2)))
+					case 1:
+						eng.Admin("POST", "/revert_to_diagnosis_free", nil)
+					case 2:
+						eng.Admin("POST", "/revert_to_last_loaded", nil)
+					case 3:
+						eng.Admin("POST", "/apply_policies", nil)
+					}
+					applied.Add(1)
+					time.Sleep(time.Duration(2+adm) * time.Millisecond)
 				}
-				applied++
-				time.Sleep(3 * time.Millisecond)
-			}
-		}()
+			}(adm)
+		}
 		var wg, mwg sync.WaitGroup
 		start := make(chan struct{})
 		for wk := 0; wk < 24; wk++ {
@@ -203,10 +207,10 @@ func main() {
 			w, _ := swapWitness.Load().(string)
 			v.Violate("C18/policy-swap/transaction-handled-without-any-installed-policy-set", fmt.Sprintf("%d of %d fixed.com requests sent while policies were being swapped were not answered by the fixed-response remedy that every installed policy set contains (first: %s)", n, swapProbes.Load(), w), w)
 		}
-		note := fmt.Sprintf("round %d: throttling passed %d rejected %d, cache hits %d, fixed %d, queue rejected %d, retries %d, admin ops %d", round, passed.Load(), rejected.Load(), hits.Load(), fixed.Load(), queued.Load(), retries.Load(), applied)
+		note := fmt.Sprintf("round %d: throttling passed %d rejected %d, cache hits %d, fixed %d, queue rejected %d, retries %d, admin ops %d", round, passed.Load(), rejected.Load(), hits.Load(), fixed.Load(), queued.Load(), retries.Load(), applied.Load())
 		v.Count("policy_rounds", 1)
 		v.Count("policy_transactions", 24*30)
-		v.Count("policy_admin_ops", applied)
+		v.Count("policy_admin_ops", int(applied.Load()))
 		v.Count("throttling_passed", int(passed.Load()))
 		v.Count("throttling_rejected", int(rejected.Load()))
 		v.Count("cache_hits", int(hits.Load()))
